@@ -22,7 +22,7 @@
         endpoint used directly (check_c21 = false): the property fails on this
         input;
      4  (with 2) every failing operation of the case lies in the known class
-        [known_c21];
+        [known_obs] (= Model's known_c21 for the unrepaired code);
      8  the case is not in the model's domain (dangling table index, operation
         after the session ended).
 
@@ -88,8 +88,30 @@ Definition h_problem_valid (p : hproblem) : bool := nonempty (snd p).
 Definition problem_eqb (a b : hproblem) : bool :=
   String.eqb (fst a) (fst b) && String.eqb (snd a) (snd b).
 
+(* The order in which a local endpoint reports the problems of one transition
+   is not deterministic (Go map iteration in core.Transition; the controller
+   sorts them): problem lists are compared as sorted lists. *)
+Definition problem_leb (a b : hproblem) : bool :=
+  match String.compare (fst a) (fst b) with
+  | Lt => true
+  | Gt => false
+  | Eq => negb (String.ltb (snd b) (snd a))
+  end.
+Fixpoint insert_problem (p : hproblem) (l : list hproblem) : list hproblem :=
+  match l with
+  | [] => [p]
+  | q :: t => if problem_leb p q then p :: l else q :: insert_problem p t
+  end.
+Definition sort_problems (l : list hproblem) : list hproblem := fold_right insert_problem [] l.
+
+Definition canon (r : hres) : hres :=
+  match r with
+  | ResTrans (Remote.TOk rs ps m) => ResTrans (Remote.TOk rs (sort_problems ps) m)
+  | _ => r
+  end.
+
 Definition h_same (loc rem : hres) : bool :=
-  same_outcome snap_eqb String.eqb String.eqb oentry_eqb problem_eqb loc rem.
+  same_outcome snap_eqb String.eqb String.eqb oentry_eqb problem_eqb (canon loc) (canon rem).
 
 (* ---------- observations ---------- *)
 Inductive scan_out := SOk (i : nat) | SErr (e : cerr) (try_again : bool).
@@ -179,7 +201,7 @@ Fixpoint problems_eqb (x y : list hproblem) : bool :=
 (* the known-finding class: Stage with no paths and no digests on a read-only
    endpoint (the local endpoint refuses, the client answers "nothing to
    stage" without asking the server) *)
-Definition known_c21 (ro : bool) (o : obs) : bool :=
+Definition known_obs (ro : bool) (o : obs) : bool :=
   match o with
   | OStage [] [] _ _ _ => ro
   | _ => false
@@ -237,7 +259,7 @@ Definition step (ro : bool) (tbl : list snap) (a : acc) (o : obs) : acc :=
     let rr : hres := ResStage (match rem with GOk ps ss => Remote.GOk ps ss
                                          | GErr e => Remote.GErr e end) in
     let prop := h_same rl rr in
-    let known := known_c21 ro o in
+    let known := known_obs ro o in
     let res_matches (mr : stage_result string string) :=
         match mr, rem with
         | Remote.GOk ps ss, GOk ps' ss' => strs_eqb ps ps' && strs_eqb ss ss'
@@ -271,15 +293,19 @@ Definition step (ro : bool) (tbl : list snap) (a : acc) (o : obs) : acc :=
     let c_resp :=
         match w_resp with
         | Some (wr, wp, wm, we) =>
-          oentries_eqb wr (map ar_content (tr_results tr)) && problems_eqb wp (tr_problems tr)
+          oentries_eqb wr (map ar_content (tr_results tr))
+          && problems_eqb (sort_problems wp) (sort_problems (tr_problems tr))
           && Bool.eqb wm (tr_missing tr) && String.eqb we (tr_error tr)
+          (* the client hands on the problems in the order they had on the wire *)
+          && match rem with TOk _ ps' _ => problems_eqb wp ps' | TErr _ => true end
         | None => false
         end in
     let mr := client_transition_finish h_result_valid h_problem_valid n tr in
     let c_res :=
         match mr, rem with
         | Remote.TOk rs ps m, TOk rs' ps' m' =>
-          oentries_eqb rs rs' && problems_eqb ps ps' && Bool.eqb m m'
+          oentries_eqb rs rs' && problems_eqb (sort_problems ps) (sort_problems ps')
+          && Bool.eqb m m'
         | Remote.TErr e, TErr e' => cerr_eqb e e'
         | _, _ => false
         end in
